@@ -81,6 +81,10 @@ class FortranCodegenConservative(FortranCodegen):
                 # TODO: Deal with inline conditionals properly
                 return super().visit_Conditional(o, *args, **kwargs)
 
+            # The header is taken from source, so an `is_elseif` marker from the enclosing
+            # conditional is consumed here and must not travel on to the bodies
+            kwargs.pop('is_elseif', None)
+
             header = o.source.string.splitlines()[0]
 
             self.depth += self.style.conditional_indent
